@@ -223,6 +223,21 @@ where
     r.run(feats, cli).boxed_local()
 }
 
+/// The test binary's own CLI: one sub-command with an option of its own.
+#[derive(clap::Args, Clone, Debug, Default)]
+pub struct OwnCli {
+    #[command(subcommand)]
+    pub command: Option<OwnCommand>,
+}
+
+#[derive(clap::Subcommand, Clone, Debug)]
+pub enum OwnCommand {
+    Smoke {
+        #[arg(long)]
+        pre_pause: Option<String>,
+    },
+}
+
 pub fn runner_cli(cfg: &spec::Cfg) -> RunnerCli {
     // every other configuration goes the way a user's does: as command-line arguments through the
     // crate's own `clap` definitions (long names, the `-c` / `--ff` spellings, `humantime` durations,
@@ -248,6 +263,25 @@ pub fn runner_cli(cfg: &spec::Cfg) -> RunnerCli {
         argv.extend(["--retry-tag-filter".to_owned(), f.clone()]);
     }
     if (spelling + argv.len()) % 2 == 1 {
+        // ... a third of those behind a sub-command of the test binary's own CLI, as the book's
+        // `-- smoke --pre-pause=5s -vv --fail-fast` (the runner's options are global ones)
+        if (spelling + argv.len()) % 3 == 1 {
+            type Opts = cucumber::cli::Opts<cucumber::cli::Empty, RunnerCli, cucumber::cli::Empty, OwnCli>;
+            let mut argv2 = vec![argv[0].clone(), "smoke".to_owned(), "--pre-pause=5s".to_owned()];
+            argv2.extend(argv[1..].iter().cloned());
+            match <Opts as cucumber::cli::Parser>::try_parse_from(&argv2) {
+                Ok(o) => {
+                    assert!(matches!(o.custom.command, Some(OwnCommand::Smoke { .. })), "sub-command lost");
+                    crate::world::with_rs(|rs| rs.cli_from_argv = true);
+                    return o.runner;
+                }
+                Err(e) => {
+                    // what the user typed does not reach the runner at all: reported by the C18 oracle
+                    crate::world::with_rs(|rs| rs.cli_rejected = Some(format!("{argv2:?}: {}", e.to_string().lines().next().unwrap_or_default())));
+                    return RunnerCli::default();
+                }
+            }
+        }
         type Opts = cucumber::cli::Opts<cucumber::cli::Empty, RunnerCli, cucumber::cli::Empty, cucumber::cli::Empty>;
         match <Opts as cucumber::cli::Parser>::try_parse_from(&argv) {
             Ok(o) => {
